@@ -55,9 +55,13 @@ def h160(b):
     return hashlib.new("ripemd160", hashlib.sha256(b).digest()).digest()
 
 
+_TYPE_CHOICE = gen.choice(TYPES)
+_MUT_INDEX = gen.uniform_int(0, 10**9)
+
+
 @st.composite
 def base_case(draw, types=TYPES):
-    typ = draw(st.sampled_from(types))
+    typ = draw(_TYPE_CHOICE) if types is TYPES else draw(st.sampled_from(types))
     n = draw(st.integers(1, 5)) if typ in MULTI else 1
     m = draw(st.integers(1, n))
     secrets = draw(st.lists(gen.uniform_int(1, ec.N - 1), min_size=7, max_size=7, unique=True))
@@ -73,7 +77,7 @@ def base_case(draw, types=TYPES):
         "amounts": draw(st.lists(st.integers(0, 2**40), min_size=3, max_size=3)),
         "spent_amount": draw(st.integers(0, 2**50)),
         "prev": draw(st.binary(min_size=32, max_size=32)),
-        "root": draw(st.binary(min_size=32, max_size=32)),
+        "root": draw(gen.rand_bytes(32)),
         "tap_ht": draw(st.sampled_from([0, 0, 1, 2, 3, 0x81, 0x82, 0x83])),
         "extra_leaf": draw(st.booleans()),
     }
@@ -284,7 +288,7 @@ ALL_MUTS = sorted({m for v in MUTS.values() for m in v})
 @st.composite
 def mut_case(draw):
     c = draw(base_case())
-    c["mut"] = draw(st.sampled_from(MUTS[c["type"]]))
+    c["mut"] = MUTS[c["type"]][draw(_MUT_INDEX) % len(MUTS[c["type"]])]
     c["delta"] = draw(st.integers(1, 2**31))
     c["which"] = draw(st.integers(0, 7))
     return c
